@@ -33,6 +33,7 @@ type Step struct {
 	Num    int           `json:"num,omitempty"`
 	Den    int           `json:"den,omitempty"`
 	Quiet  bool          `json:"quiet,omitempty"` // no queries after this step (queries reload evicted objects)
+	Agg    string        `json:"agg,omitempty"`   // aggregation type of a put ("" = sum)
 }
 
 type Query struct {
@@ -179,8 +180,12 @@ func (st *store) apply(s Step, seq int) (errs string) {
 		if err != nil {
 			return err.Error()
 		}
+		agg := s.Agg
+		if agg == "" {
+			agg = "sum"
+		}
 		if err := st.s.Put(&storage.PutInput{StartTime: time.Unix(s.From, 0), EndTime: time.Unix(s.Until, 0), Key: key,
-			Val: treeu.Build(s.Stacks), SpyName: "spy", SampleRate: 100, Units: "samples", AggregationType: "sum"}); err != nil {
+			Val: treeu.Build(s.Stacks), SpyName: "spy", SampleRate: 100, Units: "samples", AggregationType: agg}); err != nil {
 			return err.Error()
 		}
 	case "delete":
@@ -590,12 +595,75 @@ func genCap(r *rand.Rand) Input {
 	return in
 }
 
+// ---- stream "avg": an 'average' series (the per-node write counters are the divisor of its answers); single-slot
+// writes near a boundary, a write far away in time that grows the segment tree (leaving inner nodes that are not
+// present but have counted writes), a reload of the segment at that point, then writes into other children of those
+// nodes, and aligned queries answered from them ----
+func genAvg(r *rand.Rand) Input {
+	in := Input{Stream: "avg"}
+	b := boundary(r, 10000)
+	name := lib.Pick(r, []string{"app0{}", "app0{t=a}"})
+	used := map[int64]bool{}
+	put := func(from int64, i int) {
+		if used[from] {
+			return
+		}
+		used[from] = true
+		v := uint64(lib.Pick(r, []int{10, 30, 100, 7}))
+		st := []treeu.Stack{{Key: []byte("a;b"), V: v}}
+		if lib.Chance(r, 0.4) {
+			st = append(st, treeu.Stack{Key: []byte(fmt.Sprintf("a;c%d", i)), V: uint64(lib.Range(r, 1, 9))})
+		}
+		in.Steps = append(in.Steps, Step{Kind: "put", Name: name, From: from, Until: from + 10, Stacks: st, Agg: "average"})
+	}
+	maint := func() {
+		switch r.Intn(4) {
+		case 0:
+			in.Steps = append(in.Steps, Step{Kind: "restart", Quiet: lib.Chance(r, 0.5)})
+		case 1:
+			in.Steps = append(in.Steps, Step{Kind: "evict", Cache: "segments", Num: 1, Den: 2, Quiet: lib.Chance(r, 0.5)})
+		default:
+			in.Steps = append(in.Steps, Step{Kind: "evict", Cache: "segments", Num: 1, Den: 1, Quiet: lib.Chance(r, 0.5)})
+		}
+	}
+	near := func() int64 { // a slot in the first 100 s or in another 100 s child of the first 1000 s
+		if lib.Chance(r, 0.7) {
+			return b + 10*int64(r.Intn(10))
+		}
+		return b + 100*int64(r.Intn(10)) + 10*int64(r.Intn(10))
+	}
+	for i := 0; i < lib.Range(r, 1, 2); i++ {
+		put(near(), i)
+	}
+	far := lib.Pick(r, []int64{1000, 1000, 5000, 10000, 100000})
+	put(b+far+10*int64(r.Intn(10)), 5)
+	maint()
+	for i := 0; i < lib.Range(r, 1, 3); i++ {
+		put(near(), 10+i)
+		if lib.Chance(r, 0.3) {
+			maint()
+		}
+	}
+	if lib.Chance(r, 0.5) {
+		put(b+far+100+10*int64(r.Intn(10)), 20)
+	}
+	if lib.Chance(r, 0.5) {
+		maint()
+	}
+	for _, q := range [][2]int64{{0, 100}, {0, 1000}, {0, 10000}, {-100, 200}, {far, far + 1000}, {0, far + 1000}} {
+		in.Queries = append(in.Queries, Query{Name: name, From: b + q[0], Until: b + q[1]})
+	}
+	return in
+}
+
 func gen(r *rand.Rand, idx int, tier string) Input {
-	switch idx % 6 {
+	switch idx % 7 {
 	case 3:
 		return genDelOne(r)
 	case 4:
 		return genCap(r)
+	case 6:
+		return genAvg(r)
 	}
 	in := Input{Stream: "plain"}
 	if idx%6 == 5 {
